@@ -13,3 +13,4 @@ Fixpoint zll_eqb (a b : list (list Z)) : bool :=
   match a, b with [], [] => true | x :: a', y :: b' => zlist_eqb x y && zll_eqb a' b' | _, _ => false end.
 Fixpoint qll_eqb (a b : list (list Q)) : bool :=
   match a, b with [], [] => true | x :: a', y :: b' => qlist_eqb x y && qll_eqb a' b' | _, _ => false end.
+Definition nlist_eqb' := nlist_eqb.
